@@ -13,6 +13,7 @@ You can obtain one at http://mozilla.org/MPL/2.0/.
 #include "libfive/render/brep/worker_pool.hpp"
 #include "libfive/render/brep/vol/vol_tree.hpp"
 #include "libfive/eval/evaluator.hpp"
+#include "libfive/verif.hpp"
 
 namespace libfive {
 
@@ -61,6 +62,7 @@ Root<T> WorkerPool<T, Neighbors, N>::build(
     if (settings.progress_handler) {
         settings.progress_handler->nextPhase(ticks + 1);
     }
+    LIBFIVE_VERIF_POINT(verif::SITE_POOL_ANNOUNCE, ticks + 1, region.level, root);
 
     std::atomic_bool done(false);
     for (unsigned i=0; i < settings.workers; ++i)
@@ -130,6 +132,7 @@ void WorkerPool<T, Neighbors, N>::run(
 
         auto tape = task.tape;
         auto t = task.target;
+        LIBFIVE_VERIF_POINT(verif::SITE_POOL_POP, t->region.level, t->parent_index, t);
 
         // Find our local neighbors.  We do this at the last minute to
         // give other threads the chance to populate more pointers.
@@ -175,11 +178,14 @@ void WorkerPool<T, Neighbors, N>::run(
                     auto next_vol = task.vol ? task.vol->push(i, rs[i].perp)
                                              : nullptr;
                     Task next{next_tree, tape, neighbors, next_vol};
+                    LIBFIVE_VERIF_POINT(verif::SITE_POOL_PUSH, t->region.level, i, next_tree);
                     if (!tasks.bounded_push(next))
                     {
                         local.push(next);
+                        LIBFIVE_VERIF_POINT(verif::SITE_POOL_PUSH_LOCAL, t->region.level, i, next_tree);
                     }
                 }
+                LIBFIVE_VERIF_POINT(verif::SITE_POOL_EVAL_DONE, t->region.level, 0, t);
 
                 // If we did an interval evaluation, then we either
                 // (a) are done with this tree because it is empty / filled
@@ -194,6 +200,7 @@ void WorkerPool<T, Neighbors, N>::run(
         {
             t->evalLeaf(eval, tape, object_pool, neighbors);
         }
+        LIBFIVE_VERIF_POINT(verif::SITE_POOL_EVAL_DONE, t->region.level, can_subdivide ? 1 : 2, t);
 
         if (settings.progress_handler)
         {
@@ -207,10 +214,12 @@ void WorkerPool<T, Neighbors, N>::run(
                     ticks = (ticks + 1) * (1 << N);
                 }
                 settings.progress_handler->tick(ticks + 1);
+                LIBFIVE_VERIF_POINT(verif::SITE_POOL_TICK, ticks + 1, 1, t);
             }
             else
             {
                 settings.progress_handler->tick(1);
+                LIBFIVE_VERIF_POINT(verif::SITE_POOL_TICK, 1, 2, t);
             }
         }
 
@@ -230,11 +239,15 @@ void WorkerPool<T, Neighbors, N>::run(
         {
             // Report the volume of completed trees as we walk back
             // up towards the root of the tree.
+            LIBFIVE_VERIF_POINT(verif::SITE_POOL_COLLECT, 1, t->region.level, t);
             if (settings.progress_handler) {
                 settings.progress_handler->tick();
+                LIBFIVE_VERIF_POINT(verif::SITE_POOL_TICK, 1, 0, t);
             }
             up();
         }
+        LIBFIVE_VERIF_ONLY(if (t != nullptr) {
+            verif::point(verif::SITE_POOL_COLLECT, 0, t->region.level, t); })
 
         // Termination condition:  if we've ended up pointing at the parent
         // of the tree's root (which is nullptr), then we're done and break
@@ -246,6 +259,7 @@ void WorkerPool<T, Neighbors, N>::run(
 
     // If we've broken out of the loop, then we should set the done flag
     // so that other worker threads also terminate.
+    LIBFIVE_VERIF_POINT(verif::SITE_POOL_EXIT, settings.cancel.load() ? 1 : 0, done.load() ? 1 : 0);
     done.store(true);
 
     {   // Release the pooled objects to the root
